@@ -52,6 +52,14 @@ def build_harness(race=False, tags="verif"):
     hdir = os.path.join(VERIF, "harness")
     with open(os.path.join(BUILD, ".lock"), "w") as lk:
         fcntl.flock(lk, fcntl.LOCK_EX)
+        if os.path.abspath(REPO) != "/repo":
+            # a run against another checkout (VERIF_REPO): build from a copy of the harness whose replace points there
+            alt = os.path.join(BUILD, "harness-alt")
+            shutil.rmtree(alt, ignore_errors=True)
+            shutil.copytree(hdir, alt)
+            gm = open(os.path.join(alt, "go.mod")).read().replace("=> /repo", "=> " + os.path.abspath(REPO))
+            open(os.path.join(alt, "go.mod"), "w").write(gm)
+            hdir = alt
         shutil.copyfile(os.path.join(REPO, "go.sum"), os.path.join(hdir, "go.sum"))
         tmp = out + ".%d" % os.getpid()
         cmd = ["go", "build", "-tags", tags, "-o", tmp]
